@@ -306,6 +306,60 @@ def step (ops : ChildOps σ) (m : Mux σ) (i : QIn) : Mux σ × List QOut :=
 def run (ops : ChildOps σ) (m : Mux σ) (is : List QIn) : Mux σ × List QOut :=
   is.foldl (fun (acc : Mux σ × List QOut) i => let r := step ops acc.1 i; (r.1, acc.2 ++ r.2)) (m, [])
 
+/-! ### the layer's own `OpenConnection` on `Start`
+
+  `RawQuicLayer._handle_event(Start)`: if the server connection is not up yet (`timestamp_start is None`) the layer
+  yields a blocking `OpenConnection(context.server)`: `Layer.handle_event` pauses the layer and buffers every event that
+  arrives meanwhile; the reply resumes the generator (error: `CloseConnection(client)`, be done; success: forward
+  `Start` to the datagram layer) and then replays the buffered events in order (`Layer.__continue`). -/
+
+structure MuxQ (σ : Type) where
+  m : Mux σ
+  needConnect : Bool          -- `context.server.timestamp_start is None`
+  waiting : Bool              -- `_paused` on the layer's own OpenConnection
+  q : List QIn                -- `_paused_event_queue`
+
+inductive QInQ
+  | ev (i : QIn)
+  | connectDone (err : Bool)  -- `OpenConnectionCompleted` for the layer's own command
+deriving DecidableEq, Repr
+
+def MuxQ.init (ops : ChildOps σ) (connected : Bool) : MuxQ σ :=
+  { m := if connected then Mux.init ops else { Mux.init ops with server := .shut },
+    needConnect := !connected, waiting := false, q := [] }
+
+/-- `Layer.__continue`: the buffered events one by one; an AssertionError kills the generator, what is still in the
+    queue then stays there for good (the layer never pauses again) -/
+def replay (ops : ChildOps σ) (m : Mux σ) : List QIn → Mux σ × List QOut
+  | [] => (m, [])
+  | i :: t =>
+    let r := step ops m i
+    if r.2.contains .fault then r
+    else
+      let r' := replay ops r.1 t
+      (r'.1, r.2 ++ r'.2)
+
+def stepQ (ops : ChildOps σ) (mq : MuxQ σ) (x : QInQ) : MuxQ σ × List QOut :=
+  match x with
+  | .ev i =>
+    if mq.waiting then ({ mq with q := mq.q ++ [i] }, [])
+    else if mq.needConnect && (i == .start) && !mq.m.done then
+      ({ mq with needConnect := false, waiting := true }, [.dgram .openServer])
+    else
+      let r := step ops mq.m i
+      ({ mq with m := r.1 }, r.2)
+  | .connectDone err =>
+    if !mq.waiting then (mq, [])
+    else if err then
+      ({ mq with m := { mq.m with done := true }, waiting := false, q := [] }, [.dgram (.close .client false)])
+    else
+      -- the socket is up; resume `Start`, then `__continue` replays the buffered events one by one
+      let r := replay ops { mq.m with server := .opened } (.start :: mq.q)
+      ({ mq with m := r.1, waiting := false, q := [] }, r.2)
+
+def runQ (ops : ChildOps σ) (mq : MuxQ σ) (xs : List QInQ) : MuxQ σ × List QOut :=
+  xs.foldl (fun (acc : MuxQ σ × List QOut) x => let r := stepQ ops acc.1 x; (r.1, acc.2 ++ r.2)) (mq, [])
+
 /-! ### the concrete child: the C29 relay model -/
 
 def relayOps : ChildOps C29.State where
